@@ -311,6 +311,7 @@ Theorem ch_log_fields h l :
   cl_ticket l = has_ext ext_ticket (h_exts h) /\
   cl_reneg l = has_ext ext_reneg (h_exts h) /\
   cl_scts l = has_ext ext_sct (h_exts h) /\
+  cl_ems l = has_ext ext_ems (h_exts h) /\
   (forall name, find_ext ext_sni (h_exts h) = Some (enc_sni name) -> cl_sni l = name) /\
   (forall cs, find_ext ext_curves (h_exts h) = Some (enc_u16_list16 cs) -> cl_curves l = cs) /\
   (forall vs, find_ext ext_versions (h_exts h) = Some (enc_u16_list8 vs) -> cl_versions l = vs) /\
@@ -332,7 +333,7 @@ Proof.
   destruct (match find_ext ext_alpn (h_exts h) with Some b => dec_alpn b | None => Some [] end) as [alpn|] eqn:E6; [|discriminate].
   cbn [bind] in E. inversion E; subst l; clear E.
   cbn [cl_version cl_random cl_sid cl_suites cl_comps cl_ocsp cl_ticket cl_reneg cl_scts cl_sni cl_curves
-       cl_points cl_versions cl_alpn cl_sigalgs cl_session_ticket].
+       cl_points cl_versions cl_alpn cl_sigalgs cl_session_ticket cl_ems].
   repeat (split; [reflexivity|]).
   split; [intros name F; rewrite F in E1; cbv iota beta in E1; rewrite dec_sni_enc in E1; now inversion E1|].
   split; [intros cs F; rewrite F in E2; cbv iota beta in E2; rewrite dec_u16_list16_enc in E2; now inversion E2|].
